@@ -1,6 +1,6 @@
 ----------------------------- MODULE TraceAll -----------------------------
 (* The full-size trace specification: one disjunct per domain of events. *)
-EXTENDS TraceField, TraceScalar, TraceEdwards, TraceMisc, TraceVec, TraceMore, TraceMem, TraceLeak, Params
+EXTENDS TraceField, TraceScalar, TraceEdwards, TraceMisc, TraceVec, TraceMore, TraceMem, TraceLeak, TraceX, Params
 
 MetaOps == {"info", "reset", "force_backend"}
 MetaStep == /\ l <= Len(Rec) /\ Rec[l].op \in MetaOps
@@ -16,7 +16,7 @@ DanglingStep == /\ l <= Len(Rec) /\ Rec[l].op = "dangling"
                 /\ (IF Has(Rec[l], "out") THEN SetReg(Rec[l].out, NoneVal) ELSE UNCHANGED regs)
 
 Init == BaseInit
-Next == MetaStep \/ DanglingStep \/ FieldStep \/ ScalarStep \/ EdStep \/ MontStep \/ MontToEdStep \/ RisStep \/ SigStep \/ VecStep \/ VecPointStep \/ ConstStep \/ MoreStep \/ NonspecMapStep \/ MemStep \/ LeakStep
+Next == MetaStep \/ DanglingStep \/ FieldStep \/ ScalarStep \/ EdStep \/ MontStep \/ MontToEdStep \/ RisStep \/ SigStep \/ VecStep \/ VecPointStep \/ ConstStep \/ MoreStep \/ NonspecMapStep \/ MemStep \/ LeakStep \/ XsStep \/ EncEqStep \/ Pkcs8Step
 vars == <<l, bad, regs>>
 Spec == Init /\ [][Next]_vars
 =============================================================================
